@@ -11,6 +11,7 @@ import CC.Properties.C07
 import CC.Proofs.NetBasics
 import CC.Proofs.GQField
 import CC.Gen.Solution
+import CC.Properties.C08
 namespace CC
 open Gen
 
@@ -166,6 +167,42 @@ theorem C19_multi_ground_exception (cs : List Component)
     have : gs.length > 1 := by omega
     simp [hgs, bind, Except.bind, this]
 
+
+/-- **C19 (acceptance).**  `Circuit(...)` does not reject more than it must: a component list
+with pairwise distinct identifiers, at most one ground and a terminal on every component is
+accepted and stored as given (without this, a constructor that rejects every non-empty list
+would satisfy all rejection theorems above). -/
+theorem C19_mk_accepts (cs : List Component)
+    (hg : (cs.filter (fun c => decide (c.kind = "ground"))).length ≤ 1)
+    (hnodes : ∀ c ∈ cs, c.nodes ≠ []) (h : (cs.map (·.id)).Nodup) :
+    ∃ g, Circuit.mk? cs = .ok ⟨cs, g⟩ := by
+  have hnode : ∀ c ∈ cs, ∃ n, c.node 0 = .ok n := by
+    intro c hc
+    cases hcn : c.nodes with
+    | nil => exact absurd hcn (hnodes c hc)
+    | cons n _ => exact ⟨n, by simp [Component.node, hcn]⟩
+  unfold Circuit.mk?
+  cases cs with
+  | nil => exact ⟨"", rfl⟩
+  | cons c0 rest =>
+    simp only
+    obtain ⟨gs, hgs⟩ := mapM_ok_of_forall (fun c : Component => c.node 0)
+      ((c0 :: rest).filter (fun c => decide (c.kind = "ground")))
+      (fun c hc => hnode c (List.mem_filter.mp hc).1)
+    have hlen : gs.length = ((c0 :: rest).filter (fun c => decide (c.kind = "ground"))).length :=
+      (mapM_ok_forall₂ _ _ _ hgs).length_eq.symm
+    have hgl : ¬ gs.length > 1 := by omega
+    obtain ⟨g, hg'⟩ : ∃ g, pickGround c0 gs = .ok g := by
+      cases gs with
+      | nil => exact hnode c0 (List.mem_cons_self ..)
+      | cons g _ => exact ⟨g, rfl⟩
+    have : ¬ (dedupL ((c0 :: rest).map (·.id))).length ≠ (c0 :: rest).length := by
+      intro hne; apply hne
+      have := (circ_dedupL_length_eq_iff ((c0 :: rest).map (·.id))).mpr h
+      simpa using this
+    refine ⟨g, ?_⟩
+    simp only [hgs, bind, Except.bind, hgl, if_false, hg']
+    rw [if_neg this]
 
 /-! ## sign guards of the constructors (generated table + one semantic lemma) -/
 
@@ -380,8 +417,11 @@ theorem bindParams_missing (params : List (String × PTy × Option Val)) (args :
             · simp [hx, hd, ih hm', bind, Except.bind]
     exact hall params hp
 
-/-- **C19 (unknown waveform, lookup).**  `periodic_function` raises `UnknownWavetype` for every
-name that is not the wavetype of a class in `fourier_series_mapping`. -/
+/-- **C19 (unknown waveform, lookup — model level).**  The hand-written `periodicFunction` of
+CC/Model/Circuit.lean (a membership test; tied to the code by the `cc_periodic_function`
+correspondence) raises `UnknownWavetype` for every name outside the given list.  The statement
+about the *generated* lookup of `periodic_functions.py` is `C08_lookup`; `C19_unknown_wave_generated`
+below links the two lists. -/
 theorem C19_unknown_wave (waves : List String) (name : String) (h : name ∉ waves) :
     periodicFunction waves name = .error (.other "UnknownWavetype") := by
   simp [periodicFunction, h]
@@ -424,6 +464,14 @@ theorem bindParams_lookup (params : List (String × PTy × Option Val)) (args en
           | mk k val =>
             simp only at hne
             simp [List.lookup, hne, this]
+
+/-- the wavetype list the constructors check against (generated by extract_circuit.py) is the
+list of the generated lookup of property C08 (extract_fourier.py), for which `C08_lookup` proves
+that every other name raises `UnknownWavetype` -/
+theorem C19_unknown_wave_generated (s : String) (h : s ∉ Gen.waveTypes) :
+    Gen.waveTypes = ["const", "cos", "sin", "rect", "tri", "saw"] ∧
+    Gen.Fourier.periodicFunction s = .error "UnknownWavetype" :=
+  ⟨by decide, CC.C08_lookup.2.2.2.2.2.2.2 s h⟩
 
 /-- every constructor that takes a `wavetype` validates it with `periodic_function` -/
 theorem C19_wave_checked :
@@ -512,21 +560,14 @@ theorem C19_unknown_query_wrappers (N : Net String GQ) (x : List GQ) (q : Quanti
 /-! ### time- and frequency-domain solutions: the identifier is validated before the (possibly
 empty) list of single-frequency solutions is touched -/
 
-/-- `_require_component(circuit, id)` (Circuit/solution.py): the id of a non-ground component -/
-def requireComponent (cs : List Component) (id : String) : Except Err Unit :=
-  if id ∈ (cs.filter (·.kind ≠ "ground")).map (·.id) then .ok () else .error .keyError
-
-/-- `_require_node(circuit, id)`: a terminal of some component -/
-def requireNode (cs : List Component) (n : String) : Except Err Unit :=
-  if n ∈ cs.flatMap (·.nodes) then .ok () else .error .keyError
-
 /-- the kind of identifier each getter takes -/
 def getterKind (m : String) : String := if m = "get_potential" then "node" else "component"
 
 /-- **C19 (unknown query, time / frequency domain).**  Every getter of `TimeDomainSolution` and
 `FrequencyDomainSolution` validates its identifier first (generated table; `get_power` of the
-time-domain class through `get_voltage`), with the two membership tests of the shape modelled
-above — so an unknown id raises `KeyError` whatever the list of frequency components is, the
+time-domain class through `get_voltage`); conjuncts 3–4 are about the hand-written copies
+`requireComponent` / `requireNode` of CC/Model/Circuit.lean (their source text is compared verbatim
+by the translator) — so an unknown id raises `KeyError` whatever the list of frequency components is, the
 empty list (passive circuit, complex sources only, `w_max` below the fundamental) included.
 (Until fix 38fda4c the getters summed over zero solutions and returned 0 / empty arrays.) -/
 theorem C19_unknown_query_guarded :
